@@ -491,6 +491,9 @@ class WFSA:
 
         if S is None:
             S = _gen_nt()
+        if any(q in self.alphabet or q == S for q in self.states):
+            # keep state names (nonterminals) apart from the alphabet (terminals)
+            self = self.rename(lambda q: ("state", q))
         cfg = CFG(R=self.R, V=self.alphabet - {EPSILON}, S=S)
 
         if recursion == "right":
